@@ -3,7 +3,7 @@
    non-vacuity examples, Print Assumptions. *)
 From Coq Require Import List ZArith Bool.
 From Model Require Import Orm OrmPaths.
-From Proofs Require Import OrmSpec OrmInvRun OrmInvC04 OrmInvCex OrmPathsSpec OrmPathsC04.
+From Proofs Require Import OrmSpec OrmInvRun OrmInvC04 OrmInvCex OrmPathsSpec OrmPathsC04 OrmInvFaults OrmPathsFaults.
 Import ListNotations.
 Open Scope Z_scope.
 
@@ -183,6 +183,60 @@ Example C04_paths_example_join :
   fst (pstep cfgC (prun cfgC phist) (PPath (PJoin 0 Lazy (Some 0%nat)))) = Ret (RObjs [(1, Some 1%nat); (2, Some 2%nat)]).
 Proof. exact phist_join. Qed.
 
+(* ------------------------------------------------------------------ ... and through injected database errors *)
+(* `pguard04f` = pguard04, ALSO allowing every base operation and every path operation to run with a database error
+   injected at ANY statement index (OFault n o, PFaultPath n p): a get/select/join that fails half-way has loaded
+   and registered some instances, a create whose re-read fails has stored the row and registered the instance. *)
+Theorem C04_unique_with_faults :
+  forall (cfg : config) (pops : list pop) (o1 o2 : nat) (k : kind) (id : Z),
+    forallb pguard04f pops = true ->
+    let s := prun cfg pops in
+    held s o1 -> held s o2 -> current s o1 -> current s o2 ->
+    is_row s o1 k id -> is_row s o2 k id ->
+    assoc id (t_rows (tbl s k)) <> None ->
+    o1 = o2.
+Proof. exact C04_paths_unique_faults_proof. Qed.
+
+Theorem C04_get_returns_held_with_faults :
+  forall (cfg : config) (pops : list pop) (o : nat) (k : kind) (id id' : Z) (tok : option nat) (s' : st),
+    forallb pguard04f pops = true ->
+    let s := prun cfg pops in
+    held s o -> current s o -> is_row s o k id ->
+    assoc id (t_rows (tbl s k)) <> None ->
+    pstep cfg s (PBase (OGet k id)) = (Ret (RObj id' tok), s') ->
+    id' = id /\ tok = slot_of s o /\ tok <> None.
+Proof. exact C04_paths_get_returns_held_faults_proof. Qed.
+
+Theorem C04_select_returns_held_with_faults :
+  forall (cfg : config) (ops : list op) (o : nat) (k : kind) (flt : option Z) (keep : option nat)
+         (res : list (Z * option nat)) (id : Z) (tok : option nat) (s' : st),
+    forallb guard04f ops = true ->
+    let s := run cfg ops in
+    held s o -> current s o -> is_row s o k id ->
+    step cfg s (OSelect k flt keep) = (Ret (RObjs res), s') ->
+    In (id, tok) res -> tok = slot_of s o /\ tok <> None.
+Proof. exact C04_select_returns_held_faults_proof. Qed.
+
+Theorem C04_fk_returns_held_with_faults :
+  forall (cfg : config) (pops : list pop) (h : nat) (k' : kind) (o : nat) (id' : Z) (tok : option nat) (s' : st),
+    forallb pguard04f pops = true ->
+    let s := prun cfg pops in
+    held s o -> current s o -> is_row s o k' id' ->
+    assoc id' (t_rows (tbl s k')) <> None ->
+    pstep cfg s (PPath (PFk h k')) = (Ret (RObj id' tok), s') ->
+    tok = slot_of s o /\ tok <> None.
+Proof. exact C04_fk_returns_held_faults_proof. Qed.
+
+Theorem C04_join_returns_held_with_faults :
+  forall (cfg : config) (pops : list pop) (h : nat) (k' : kind) (keep : option nat) (o : nat) (id : Z)
+         (res : list (Z * option nat)) (tok : option nat) (s' : st),
+    forallb pguard04f pops = true ->
+    let s := prun cfg pops in
+    held s o -> current s o -> is_row s o k' id ->
+    pstep cfg s (PPath (PJoin h k' keep)) = (Ret (RObjs res), s') ->
+    In (id, tok) res -> tok = slot_of s o /\ tok <> None.
+Proof. exact C04_join_returns_held_faults_proof. Qed.
+
 (* ------------------------------------------------------------------ what is FALSE of the code (open findings) *)
 Definition cfgT : config := {| doCache := true; cullFreq := 100; cullFrac := 2 |}.
 Definition cfgF : config := {| doCache := false; cullFreq := 100; cullFrac := 2 |}.
@@ -244,3 +298,8 @@ Print Assumptions C04_join_returns_held.
 Print Assumptions C04_fk_deleted_not_returned_partial.
 Print Assumptions C04_join_yields_referencing_rows.
 Print Assumptions C04_paths_cached_is_current.
+Print Assumptions C04_unique_with_faults.
+Print Assumptions C04_get_returns_held_with_faults.
+Print Assumptions C04_select_returns_held_with_faults.
+Print Assumptions C04_fk_returns_held_with_faults.
+Print Assumptions C04_join_returns_held_with_faults.
